@@ -40,7 +40,7 @@ ITEM_ROWS = [
 ]
 IDENTS = {"vt_item", "vt_parent", "vt_child", "vt_tag", "vt_parent_tags", "id", "n", "m", "name", "title", "flag", "k",
           "label", "t", "boss_id", "parent_id", "owner_id", "tag_id", "vt2_user", "vt2_team", "vt2_project", "vt2_ticket",
-          "project_id"}
+          "project_id", "vt_note", "text", "child_id"}
 
 
 # ====================================================================== program extraction (the live code)
@@ -163,7 +163,7 @@ def replay(backend: str, text: str, content: Dict[str, List[dict]], model: str =
         return "error", f"{type(e).__name__}: {str(e).splitlines()[0] if str(e) else ''}"
 
 
-_DJ_ORDER = ("vt_item", "vt_tag", "vt_parent", "vt_child", "vt_parent_tags")
+_DJ_ORDER = ("vt_item", "vt_tag", "vt_parent", "vt_child", "vt_parent_tags", "vt_note")
 _SA_ORDER = _DJ_ORDER + ("vt2_user", "vt2_team", "vt2_project", "vt2_ticket")
 _NOFILTER = object()
 
@@ -173,7 +173,7 @@ def _replay_django(text, content, model, base):
     M = setup.django_tables()
     setup.django_clear()
     from odata_query.django import apply_odata_query
-    cls_of = {"vt_item": M.Item, "vt_tag": M.Tag, "vt_parent": M.Parent, "vt_child": M.Child,
+    cls_of = {"vt_item": M.Item, "vt_tag": M.Tag, "vt_parent": M.Parent, "vt_child": M.Child, "vt_note": M.Note,
               "vt_parent_tags": M.Parent.tags.through}
     for t in _DJ_ORDER:
         rows = content.get(t, [])
